@@ -1,4 +1,4 @@
-(* Driver around the extracted model: reads one s-expression per line, prints Cmd.run of it.
+(* Driver around the extracted model: reads one s-expression per line, prints Cmd.pqref_main of it (a name no model uses, so extraction never renames it).
    Tokens: ( )  xHEX / -xHEX integers,  #HEX byte strings,  bare symbols (become byte strings). *)
 module M = Pqmodel
 
@@ -97,7 +97,7 @@ let () =
       let line = input_line stdin in
       if String.length line > 0 then begin
         let b = Buffer.create 256 in
-        (try print b (M.run (parse line (ref 0)))
+        (try print b (M.pqref_main (parse line (ref 0)))
          with Stack_overflow -> Buffer.add_string b "(#6572726f72 #737461636b)"
             | Failure m -> Buffer.add_string b "(#6572726f72 #6661696c757265)");
         print_string (Buffer.contents b); print_newline ()
